@@ -145,7 +145,11 @@ func (e *Engine) RunCheck(opt CheckOpts) *CheckResult {
 					}
 				}
 			}
-			if counts(e.Specs, opt.Prop, o) || viaProps || o.Kind == "canary" {
+			// a function selected for the property is decided completely: a clause labelled for another
+			// property in the same function is very often a premise of this one (lesson of the seeded
+			// defects: most misses were clauses that existed but counted for a different property)
+			wholeFn := o.Kind != "canary"
+			if counts(e.Specs, opt.Prop, o) || viaProps || wholeFn || o.Kind == "canary" {
 				keep = append(keep, o)
 			}
 		}
